@@ -230,6 +230,7 @@ class C02(runner.Check):
 			regions.append((s, r.randint(s + 3, L)))
 		if L >= 8:
 			regions.append((r.randint(0, 2), -r.randint(2, 3)))     # negative end other than -1
+			regions.append((-r.randint(5, min(L - 1, 30)), -1))      # "the last k positions"
 		ops = []
 		for _ in range(r.randint(5, 30) if L < 60000 else r.randint(3, 6)):
 			kind = r.wchoice(["dinuc", "mono", "np_seed", "np_draw", "nb_seed", "nb_draw",
@@ -239,6 +240,8 @@ class C02(runner.Check):
 				k = r.randint(1, len(pool))
 				op.update(ex=r.sample(range(len(pool)), k), region=list(r.choice(regions)),
 					n=r.choice([1, 1, 2, 3]), rs=r.choice(seeds), thread=r.chance(0.15))
+				if kind == "mono" and op["region"][0] < 0:
+					op["region"] = [0, op["region"][1]]        # shuffle() rejects a negative start
 				if kind == "mono" and op["rs"] < 0:
 					op["rs"] = -op["rs"]        # RandomState rejects negative seeds
 				op["seed_type"] = r.wchoice(["int", "numpy.int64", "numpy.int32"], [5, 1, 1])
